@@ -112,14 +112,19 @@ def reentrancy_rule(ctx: Ctx, rule: str) -> None:
             val = s.value
             if isinstance(s, ast.Assign):
                 ok_inc = isinstance(val, ast.BinOp) and isinstance(val.op, ast.Add) and isinstance(val.right, ast.Constant) and val.right.value == 1
+                # the base is the current value of the very limit being raised (it must grow on every exhausted wait)
+                base = val.left if ok_inc else None
+                ok_inc = ok_inc and isinstance(base, ast.Call) and call_name(base) in ("get_numeric", "get") and base.args \
+                    and isinstance(base.args[0], ast.Constant) and base.args[0].value == "max_concurrent_tries" \
+                    and ast.unparse(base.func.value) == ast.unparse(s.targets[0].value)
             else:
                 ok_inc = isinstance(s.op, ast.Add) and isinstance(val, ast.Constant) and val.value == 1
             if not ok_inc:
-                bad = (v, "increment by one", ast.unparse(s))
+                bad = (v, "max_concurrent_tries = current max_concurrent_tries + 1", ast.unparse(s))
     ctx.expect_sites(rule + "b", n, 1, T.TOT, False, "store to params['max_concurrent_tries']")
     ctx.record(rule + "b", "GUARD", T.TOT, "re-entrancy granted (+1) only when the same occupied node was waited for longer than its test duration",
                bad is None, {"paths": n, **({"required": bad[1], "known": bad[2]} if bad else {})},
-               "" if bad is None else "re-entrancy into an occupied node is granted without exhausting the waiting budget")
+               "" if bad is None else f"re-entrancy into an occupied node is not granted exactly as 'limit + 1 after the waiting budget on that node is exhausted' (expected {bad[1]})")
     # the wait counter restarts for a different node
     n2, bad2 = 0, None
     for v in views:
@@ -169,6 +174,7 @@ MUTANTS = [
     ("marker-written-in-node", NODE, "        self.prefix = \"0\" + self.prefix\n", "        self.prefix = \"0\" + self.prefix\n        self.started_worker = None\n", "2"),
     ("threshold-floor-zero", NODE, "return self.is_started(worker, max(max_concurrent_tries, 1))", "return self.is_started(worker, max(max_concurrent_tries, 0))", "6"),
     ("threshold-gt", NODE, "            return len(self.shared_started_workers) >= threshold", "            return len(self.shared_started_workers) > threshold", "6d"),
+    ("reentrancy-not-accumulating", G, "next.params.get_numeric(\"max_concurrent_tries\", 0) + 1", "next.params.get_numeric(\"max_tries\", 1) + 1", "7b"),
     ("reentrancy-without-budget", G, "                    if occupied_wait > test_duration:", "                    if occupied_wait > 0:", "7b"),
     ("own-marker-only", NODE, "        for bridged_node in self.bridged_nodes:\n            if bridged_node.started_worker is not None:\n                workers.add(bridged_node.started_worker)\n        return workers",
      "        return workers", "6b"),
